@@ -545,14 +545,14 @@ def no_use_before_assignment(ctx, model, prop, rule, prefixes, exact_modules=Fal
 def helper_closure(model, allowed):
     """who-may-call rules: a *private* module-level helper shares its callers' permission when every reference to its name anywhere in the
     package is a direct call from inside a permitted function (fixpoint).  A helper that is also called from elsewhere, handed around as a
-    value, or never called, gains nothing."""
+    value, never called, or decorated (memoised, wrapped), gains nothing."""
     allowed = set(allowed)
     refs = {}           # helper qualname -> list of (referencing function qualname or None, is_direct_call)
     helpers = {}
     for m in model.modules.values():
         for f in m.functions.values():
-            if f.name.startswith("_") and not f.name.startswith("__"):
-                helpers.setdefault(f.name, []).append(f)
+            if f.name.startswith("_") and not f.name.startswith("__") and not f.node.decorator_list:
+                helpers.setdefault(f.name, []).append(f)      # (a decorated helper - cached, wrapped - does not simply run when called)
 
     def scan(owner, tree):
         calls = set()
